@@ -58,7 +58,7 @@ impl Prop for P {
                     Ok(())
                 }
             }
-            let mut b = fst::raw::Builder::verif_new_type_with_cache(Chunky(vec![], cap), ty, rows, cols).unwrap();
+            let mut b = if (rows, cols) == (crate::core::drows(), crate::core::dcols()) { fst::raw::Builder::new_type(Chunky(vec![], cap), ty).unwrap() } else { crate::hooks::builder_with_cache(Chunky(vec![], cap), ty, rows, cols) };
             for o in &ops {
                 match o {
                     Op::Insert(k, v) => b.insert(k, *v).unwrap(),
